@@ -357,7 +357,7 @@ func runSchedCheck(c *vk.Ctx, scs, all []*schedScenario, oracle schedOracle) {
 		// write, which is the same as not running it); the thorough tier offers all three anyway.
 		opts.Faults = allFaults
 	}
-	total := time.Duration(c.Pick(80, 22*60)) * time.Second
+	total := time.Duration(c.Pick(125, 22*60)) * time.Second
 	t0 := time.Now()
 	for i, sc := range scs {
 		resolveRefs(sc)
